@@ -190,3 +190,9 @@ pub fn xrd_vaults_of(sim: &mut Sim, c: ComponentAddress) -> Vec<NodeId> {
 pub fn dec_json(d: Decimal) -> serde_json::Value {
     serde_json::Value::String(d.to_string())
 }
+
+/// Development aid: VERIF_WALL_CAP_S overrides the internal wall cap (never changes what is enumerated,
+/// only how long the run may take before it stops and reports `exhaustive: false`).
+pub fn wall_cap_override() -> Option<f64> {
+    std::env::var("VERIF_WALL_CAP_S").ok().and_then(|s| s.parse().ok())
+}
